@@ -87,7 +87,7 @@ class Machine(object):
             r = rng.random()
             if r < 0.12:
                 s["rx_fault"] = rng.choice(["enc_flip", "enc_flip", "enc_trunc", "enc_ext", "enc_reencode", "enc_zero",
-                                            "info", "psk", "psk_id", "sender", "rk"])
+                                            "info", "psk", "psk_id", "sender", "rk", "enc_degenerate", "enc_degenerate", "enc_offcurve"])
                 s["rx_salt"] = rng.randrange(1 << 16)
         ops = []
         nsent = [0] * len(sessions)
@@ -219,6 +219,26 @@ class Machine(object):
                     r_enc = enc[:31] + bytes([enc[31] | 0x80])
                 else:
                     r_enc = enc            # X448 has no alternative encoding
+            elif fault == "enc_degenerate":
+                # a well-formed octet string that encodes no usable public key: the neutral element on the NIST curves,
+                # a point of small order (all-zero shared secret, RFC 7748 section 6) on the Montgomery curves
+                if curve in M.WS_NAME:
+                    r_enc = b"\x04" + bytes(len(enc) - 1)
+                else:
+                    p_ = (1 << 255) - 19 if curve == "curve25519" else (1 << 448) - (1 << 224) - 1
+                    small = [0, 1, p_ - 1, p_, p_ + 1]
+                    if curve == "curve25519":
+                        small += [325606250916557431795983626356110631294008115727848805560023387167927233504,
+                                  39382357235489614581723060781553021112529911719440698176882885853963445705823]
+                    r_enc = small[salt % len(small)].to_bytes(len(enc), "little")
+            elif fault == "enc_offcurve":
+                if curve in M.WS_NAME:
+                    b = bytearray(enc)
+                    b[-1 - salt % 4] ^= 1 << (salt % 8)         # y damaged: not on the curve
+                    r_enc = bytes(b)
+                else:
+                    r_enc = enc                                  # every u is a valid Montgomery public key
+                    fault = None
             elif fault == "info":
                 r_info = info + b"x"
             elif fault == "psk" and psk:
@@ -252,6 +272,12 @@ class Machine(object):
             except Exception as e:
                 ctx.violate("hpke/setup/receiver-exception:%s" % type(e).__name__, "receiver set-up raised %r (fault %s)" % (e, fault),
                             observed=repr(e), expected="ValueError or context")
+            if rcv is not None and rmodel is None and fault and fault.startswith("enc_"):
+                ctx.violate("hpke/setup/invalid-enc-accepted:%s" % fault,
+                            "receiver set-up accepted an enc that does not define a context (RFC 9180 7.1.1/7.1.4: not the Npk-byte "
+                            "serialization of a valid public key of the KEM, or a neutral / all-zero Diffie-Hellman result) "
+                            "(fault %s, %s, %d bytes)" % (fault, curve, len(r_enc)),
+                            observed="context", expected="ValueError")
             S.append({"snd": snd, "rcv": rcv, "mirror": mirror, "rmodel": rmodel, "sent": [], "sseq": 0, "cfg": s,
                       "snd_dead": False})
             ctx.state((curve, s["aead"], s["mode"], fault or "-"))
